@@ -55,6 +55,10 @@ func genC11(t *rapid.T) c11Case {
 			c.Target = "other"
 		} else {
 			c.OwnPkg = pkgs[rapid.IntRange(0, len(pkgs)-1).Draw(t, "ownpkg")]
+			// beta/v1 imports alpha: a type that mentions beta cannot be written inside package alpha (import cycle)
+			if c.OwnPkg == "alpha" && seen["beta"] {
+				c.OwnPkg = "beta"
+			}
 		}
 	}
 	return c
@@ -147,7 +151,7 @@ func oracleC11(c c11Case) error {
 	}
 	var terrs []string
 	conf := types.Config{Importer: mapImporter(f.pkgs), Error: func(err error) {
-		if !strings.Contains(err.Error(), "imported and not used") {
+		if !strings.Contains(err.Error(), "imported and not used") && !strings.Contains(err.Error(), "and not used") {
 			terrs = append(terrs, err.Error())
 		}
 	}}
